@@ -109,14 +109,14 @@ theorem grel_skips {lv : Lv} {σ : Subst} {π : Nat → Nat} {D : Nat → Prop} 
 /-- **the activation of a clause the reference has no clause for**: the goals of the body in front of
     the pending goals, against the reference's frames in front of the resolvent (or: the clause is
     `true`-bodied, the VM has no goal for the reference's frame `true`) -/
-theorem frames_head {c g : Term} {K : Cont} {id : Nat} {m : MS} {q0 : Pr} {m1 : MS}
+theorem frames_head {cl : Clause} {c g : Term} {K : Cont} {id : Nat} {m : MS} {q0 : Pr} {m1 : MS}
     {N : Nat} {env : Env} {σ : Subst} {π : Nat → Nat} {D : Nat → Prop} {nv d : Nat} {lv : Lv}
     {G : List (Term × Nat)} {R : List SLD.Frame} {q : Term}
     (hW : SimW tmpl N env σ π D nv) (hN : N ≤ m.user.nextVar) (hgD : InD D g) (hshape : Shape g)
     (hcg : ContGoals fl mo tmpl max K G) (hgr : GRel mo lv σ π D G R) (hco : CutsOK lv G) (hq' : q = img σ π tmpl)
     (hok : LvOK mo lv d) (hidn : id ∉ lv.map Prod.fst)
-    (hev : evalThunk F (Thunk.clause (clauseOf c) (argList g) K env id) m = some (q0, m1))
-    {Fs' : List SLD.Frame} (hit : AltRel fl σ π D nv d g c (some (.frames Fs'))) :
+    (hev : evalThunk F (Thunk.clause cl (argList g) K env id) m = some (q0, m1))
+    {Fs' : List SLD.Frame} (hit : AltRel fl σ π D nv d g cl c (some (.frames Fs'))) :
     ∃ fuel' env' N' K1 G1 σ' π' D', m.user.nextVar ≤ N' ∧ applyCont fuel' K1 env' (bump m N') = some (q0, m1) ∧
       SimW tmpl N' env' σ' π' D' nv ∧ ContGoals fl mo tmpl max K1 (G1 ++ G) ∧
       CutsOK ((id, some d) :: lv) (G1 ++ G) ∧ q = img σ' π' tmpl ∧ (∀ it ∈ G1, it.2 = id) ∧
@@ -125,9 +125,8 @@ theorem frames_head {c g : Term} {K : Cont} {id : Nat} {m : MS} {q0 : Pr} {m1 : 
         (G1 = [] ∧ ∃ l Fs'', Fs' = .goal (.atom "true") l :: Fs'' ∧ GRel mo ((id, some d) :: lv) σ' π' D' G (Fs'' ++ R))) := by
   have hext := hext_push (lv := lv) (id := id) (some d) hidn
   cases hit with
-  | frames κ nv' τ2 ls hcl hkeyc hnv hκ1 hκ2 hκ3 hτ hsm1 hsm2 hFs =>
+  | frames κ nv' τ2 ls hcr hkeyc hnv hκ1 hκ2 hκ3 hτ hsm1 hsm2 hFs =>
   rename_i Fs
-  obtain ⟨_, hcr⟩ := clauseOf_spec c hcl
   have hkey : functorName g = functorName (SLD.headBody c).1 ∧
       (argList g).length = (argList (SLD.headBody c).1).length := by
     have := hkeyc
@@ -199,9 +198,9 @@ theorem ta_succ {k : Nat} (ihPall : ∀ j, j ≤ k → TPk fl mo tmpl max prog F
   intro it its id g K env R q nv n d r lv m sig m' ans0 hda hgood hans hid0 hidn hshape hsim hs hok hst hlt
   have ihP : TPk fl mo tmpl max prog F k := ihPall k (Nat.le_refl k)
   subst hans
-  obtain ⟨c, oa⟩ := it
+  obtain ⟨cl, c, oa⟩ := it
   simp only at hda hgood
-  cases hev : evalThunk F (Thunk.clause (clauseOf c) (argList g) K env id) m with
+  cases hev : evalThunk F (Thunk.clause cl (argList g) K env id) m with
   | none => rw [dfsAlts_thunk_none (sem := VM.sem F) (by exact hev)] at hda; cases hda
   | some pr =>
   obtain ⟨q0, m1⟩ := pr
@@ -221,7 +220,7 @@ theorem ta_succ {k : Nat} (ihPall : ∀ j, j ≤ k → TPk fl mo tmpl max prog F
       frames_head (F := F) hW hN hgD hshape hcg hgr hco hq' hok hidn hev hit
     have hok1 : LvOK mo ((id, some d) :: lv) (d + 1) := hok.push hid0 hidn
     have hlv1 : ((id, some d) :: lv).map Prod.fst =
-        push ({ id := id, delayed := its.map (fun it => Thunk.clause (clauseOf it.1) (argList g) K env id) } : Pr).id
+        push ({ id := id, delayed := its.map (fun it => Thunk.clause it.1 (argList g) K env id) } : Pr).id
           (lv.map Prod.fst) := by
       simp [push, hid0]
     cases hs1 : SLD.solve false (progS prog) n' (d + 1) nv (Fs ++ R) q (max - m.user.answers.length) with
@@ -303,7 +302,7 @@ theorem ta_succ {k : Nat} (ihPall : ∀ j, j ≤ k → TPk fl mo tmpl max prog F
         | cons _ tl => exact tl
       have hlcp : Lv.lev ((cp, some d) :: lv) cp = some d := lev_cons_self cp (some d) lv
       cases hq : dfsP (VM.sem F) 0 k (cutPromise pc vars k0 env' cp)
-          (push ({ id := cp, delayed := its.map (fun it => Thunk.clause (clauseOf it.1) (argList g) K env cp) } : Pr).id
+          (push ({ id := cp, delayed := its.map (fun it => Thunk.clause it.1 (argList g) K env cp) } : Pr).id
             (lv.map Prod.fst)) (bump m N') with
       | none => rw [dfsAlts_child_none (sem := VM.sem F) (by exact hev) hq] at hda; cases hda
       | some pr2 =>
@@ -403,20 +402,19 @@ theorem ta_succ {k : Nat} (ihPall : ∀ j, j ≤ k → TPk fl mo tmpl max prog F
   | cons hit hR =>
   -- the remaining alternatives, from a later state
   have hrest : ∀ (m2 : MS) (r' : SLD.Res) (n0 : Nat), m.user.nextVar ≤ m2.user.nextVar →
-      SLD.solveAlts false (progS prog) n0 d nv (its.filterMap (·.2)) R q (max - m2.user.answers.length) = some r' →
+      SLD.solveAlts false (progS prog) n0 d nv (its.filterMap (·.2.2)) R q (max - m2.user.answers.length) = some r' →
       PSpec fl mo tmpl max prog lv d
-        { id := id, delayed := its.map (fun it => Thunk.clause (clauseOf it.1) (argList g) K env id) }
+        { id := id, delayed := its.map (fun it => Thunk.clause it.1 (argList g) K env id) }
         m2 m2.user.answers r' := by
     intro m2 r' n0 h2 h3
     refine .alts rfl hid0 hshape ?_ h3
     exact ⟨N, σ, π, D, G, Nat.le_trans hN h2, hW, hcg, hgr, hco, hq', hgD, hR⟩
   cases hit with
-  | prog hcs hkeyc =>
+  | prog hcr hkeyc =>
     -- a clause of the program
     cases n with
     | zero => rw [solveAlts_zero] at hs; cases hs
     | succ n' =>
-    obtain ⟨_, hcr⟩ := clauseOf_spec c (clauseC_of_S hcs)
     simp only [List.filterMap_cons] at hs
     rw [solveAlts_clause] at hs
     simp only [ruleOf, headBody_shift_rule] at hs
@@ -495,7 +493,7 @@ theorem ta_succ {k : Nat} (ihPall : ∀ j, j ≤ k → TPk fl mo tmpl max prog F
           obtain ⟨hspec, hst1, hnv1⟩ := hspec1
           exact alt_tail ihP hda hgood hev rfl rfl hid0 hidn hok hlt hspec hst1 (Nat.le_trans hN' hnv1) hs
             (fun m2 r' h2 _ h3 => hrest m2 r' n' h2 h3)
-  | frames κ nv' τ2 ls hcl hkeyc hnv hκ1 hκ2 hκ3 hτ hsm1 hsm2 hFs =>
+  | frames κ nv' τ2 ls hcr hkeyc hnv hκ1 hκ2 hκ3 hτ hsm1 hsm2 hFs =>
     -- a clause the reference has no clause for: `call/1`'s clause, a control clause of bootstrap.pl
     rename_i Fs
     cases n with
@@ -505,7 +503,7 @@ theorem ta_succ {k : Nat} (ihPall : ∀ j, j ≤ k → TPk fl mo tmpl max prog F
     rw [solveAlts_frames_cons] at hs
     obtain ⟨fuel', env', N', K1, G1, σ', π', D', hN', hcont, hWB, hcgK1, hcoAll, hq1, hG1id, hgrR, hgrAll⟩ :=
       frames_head (F := F) hW hN hgD hshape hcg hgr hco hq' hok hidn hev
-        (AltRel.frames κ nv' τ2 ls hcl hkeyc hnv hκ1 hκ2 hκ3 hτ hsm1 hsm2 hFs)
+        (AltRel.frames κ nv' τ2 ls hcr hkeyc hnv hκ1 hκ2 hκ3 hτ hsm1 hsm2 hFs)
     have hcoG : CutsOK ((id, some d) :: lv) G := cutsOK_ext hext hco
     cases hs1 : SLD.solve false (progS prog) n' (d + 1) nv ((Fs ++ ls.map skipF) ++ R) q (max - m.user.answers.length) with
     | none => rw [hs1] at hs; simp at hs
@@ -532,9 +530,8 @@ theorem ta_succ {k : Nat} (ihPall : ∀ j, j ≤ k → TPk fl mo tmpl max prog F
     obtain ⟨hspec, hst1, hnv1⟩ := hspec1
     exact alt_tail ihP hda hgood hev rfl rfl hid0 hidn hok hlt hspec hst1 (Nat.le_trans hN' hnv1) hs
       (fun m2 r' h2 _ h3 => hrest m2 r' n' h2 h3)
-  | dead κ nv' hcl hkeyc hnv hκ1 hκ2 hκ3 hclash =>
+  | dead κ nv' hcr hkeyc hnv hκ1 hκ2 hκ3 hclash =>
     -- the head cannot unify with the goal
-    obtain ⟨_, hcr⟩ := clauseOf_spec c hcl
     simp only [List.filterMap_cons] at hs
     have hkey : functorName g = functorName (SLD.headBody c).1 ∧
         (argList g).length = (argList (SLD.headBody c).1).length := by
